@@ -437,6 +437,14 @@ theorem parallel_sort_is_sort (l : Nat) (ks : List (String × Bool)) (shares : L
     (mergerBatches (lessKeys ks) (sortLimit l) (shares.map (sortSem l ks))).flatten = sortSem l ks shares.flatten :=
   parallel_sort_merge (leKeys_trans ks) (leKeys_total ks) (lessKeys_eq ks) (sortLimit l) shares hu
 
+/-- LIMITS ARE EXACT (C05): the consumer of parallel `sort <limit>` chains receives exactly min(limit, rows) rows -/
+theorem parallel_sort_row_count (l : Nat) (ks : List (String × Bool)) (shares : List Table)
+    (hu : KeysSeparate ks shares.flatten) :
+    (mergerBatches (lessKeys ks) (sortLimit l) (shares.map (sortSem l ks))).flatten.length
+      = min (sortLimit l) shares.flatten.length := by
+  rw [parallel_sort_is_sort l ks shares hu]
+  simp [sortSem, sortL, List.length_take, List.length_mergeSort]
+
 /-- … in particular the answer does not depend on how many chains there are nor on which rows reach which chain: any two
 dealings of the same rows (permutations of each other) give the same answer -/
 theorem parallel_sort_independent_of_dealing (l : Nat) (ks : List (String × Bool)) (sh₁ sh₂ : List Table)
